@@ -1,5 +1,243 @@
-use crate::check::Violation;
+//! C04 — compiling and running never panics the host; environment-fault slice (DESIGN 4.6).
+//! Enumerated: file-system states of every file a VRL function reads (at compile time or at first use).
+//! Plus fault-free corpus worlds under all scheduler modes, looking only for panics and aborts.
+
+use crate::batch::{pack, run_and_judge};
+use crate::c14;
+use crate::check::*;
 use crate::driver::WorkerError;
+use crate::genprog;
+use crate::judge::{died_pub, prog_desc};
+use crate::prng::{fnv, mix, Rng};
+use crate::sched::Policy;
 use crate::spec::*;
+use crate::worker::repo_dir;
+
 type Res = Result<SessionResult, WorkerError>;
-pub fn judge(_s: &SessionSpec, _r: &Res) -> Result<Vec<Violation>, String> { Ok(vec![]) }
+
+pub fn judge(session: &SessionSpec, res: &Res) -> Result<Vec<Violation>, String> {
+    let res = match res {
+        Ok(r) => r,
+        Err(e) => return died_pub("C04", e, session, true),
+    };
+    let mut out = vec![];
+    for (w, wr) in session.worlds.iter().zip(res.worlds.iter()) {
+        let files = if w.files.is_empty() { String::new() } else { format!("file states: {}", serde_json::to_string(&w.files).unwrap()) };
+        for (pi, pre) in wr.precompiled.iter().enumerate() {
+            if let Some(o) = pre {
+                if o.starts_with("PANIC") {
+                    out.push(Violation {
+                        property: "C04".into(),
+                        class: "panic".into(),
+                        at: format!("world {} precompilation of program {pi}", w.id),
+                        program: prog_desc(w, pi),
+                        observed: o.lines().next().unwrap_or("").to_string(),
+                        expected: "compile returns diagnostics".into(),
+                        note: files.clone(),
+                    });
+                }
+            }
+        }
+        for o in &wr.obs {
+            if !o.panicked {
+                continue;
+            }
+            let prog = match w.nodes.get(o.node).and_then(|n| n.ops.get(o.op)) {
+                Some(Op::Run { prog, .. }) | Some(Op::Compile { prog }) => *prog,
+                _ => 0,
+            };
+            let line = o.outcome.lines().find(|l| l.contains("PANIC")).unwrap_or("").to_string();
+            out.push(Violation {
+                property: "C04".into(),
+                class: "panic".into(),
+                at: format!("world {} node {} op {} ({})", w.id, o.node, o.op, o.kind),
+                program: prog_desc(w, prog),
+                observed: line,
+                expected: "no panic".into(),
+                note: files.clone(),
+            });
+        }
+        for h in &wr.monitor_hits {
+            if h.monitor == "harness" {
+                return Err(format!("world {}: {}", w.id, h.what));
+            }
+        }
+    }
+    Ok(out)
+}
+
+struct Consumer {
+    name: &'static str,
+    /// fixture path relative to /repo
+    fixture: &'static str,
+    /// source template; `@F@` = the file path
+    source: &'static str,
+    event: &'static str,
+    text_file: bool,
+    /// file is read while the program runs (not at compile time)
+    runtime_read: bool,
+}
+
+const CONSUMERS: &[Consumer] = &[
+    Consumer { name: "parse_proto", fixture: "tests/data/protobuf/test_protobuf/v1/test_protobuf.desc", source: "parse_proto!(decode_base64!(\"Cgdzb21lb25lIggKBjEyMzQ1Ng==\"), \"@F@\", \"test_protobuf.v1.Person\")\n", event: "{}", text_file: false, runtime_read: false },
+    Consumer { name: "encode_proto", fixture: "tests/data/protobuf/test_protobuf/v1/test_protobuf.desc", source: "encode_base64(encode_proto!({\"name\": \"someone\", \"phones\": [{\"number\": \"123456\"}]}, \"@F@\", \"test_protobuf.v1.Person\"))\n", event: "{}", text_file: false, runtime_read: false },
+    Consumer { name: "parse_proto(maps)", fixture: "tests/data/protobuf/test_protobuf_maps/v1/test_protobuf_maps.desc", source: "parse_proto!(encode_proto!({\"by_string\": {\"a\": \"1\"}, \"by_int32\": {\"1\": \"a\"}}, \"@F@\", \"test_protobuf_maps.v1.Maps\"), \"@F@\", \"test_protobuf_maps.v1.Maps\")\n", event: "{}", text_file: false, runtime_read: false },
+    Consumer { name: "encode_proto(proto3)", fixture: "tests/data/protobuf/test_protobuf3/v1/test_protobuf3.desc", source: "encode_base64(encode_proto!({\"name\": \"someone\", \"job_description\": \"x\"}, \"@F@\", \"test_protobuf3.v1.Person\"))\n", event: "{}", text_file: false, runtime_read: false },
+    Consumer { name: "parse_groks", fixture: "tests/data/grok/aliases.json", source: "parse_groks!(\"username=foo\", patterns: [\"%{PATTERN_A}\"], alias_sources: [\"@F@\"])\n", event: "{}", text_file: true, runtime_read: false },
+    Consumer { name: "parse_etld", fixture: "lib/tests/tests/functions/custom_public_suffix_list.dat", source: "parse_etld!(\"vector.acmecorp\", psl: \"@F@\")\n", event: "{}", text_file: true, runtime_read: false },
+    Consumer { name: "validate_json_schema(email)", fixture: "tests/data/jsonschema/validate_json_schema/schema_with_email_format.json", source: ".ok, .err = validate_json_schema(string!(.doc), \"@F@\", false)\n.\n", event: "{\"doc\": \"{ \\\"productUser\\\": \\\"valid@email.com\\\" }\"}", text_file: true, runtime_read: true },
+    Consumer { name: "validate_json_schema(custom)", fixture: "tests/data/jsonschema/validate_json_schema/schema_with_custom_format.json", source: ".ok, .err = validate_json_schema(string!(.doc), \"@F@\", true)\n.\n", event: "{\"doc\": \"{ \\\"productUser\\\": \\\"x\\\" }\"}", text_file: true, runtime_read: true },
+    Consumer { name: "validate_json_schema(arrays)", fixture: "tests/data/jsonschema/validate_json_schema/schema_arrays_of_things.json", source: ".ok, .err = validate_json_schema(string!(.doc), \"@F@\", false)\n.\n", event: "{\"doc\": \"{\\\"fruits\\\": [\\\"apple\\\"], \\\"vegetables\\\": [{\\\"veggieName\\\": \\\"potato\\\", \\\"veggieLike\\\": true}]}\"}", text_file: true, runtime_read: true },
+];
+
+fn world_for(c: &Consumer, id: String, file_name: &str, state: Option<FileKind>, mid: Option<FileKind>, two_nodes: bool, wrong_message: bool, seed: u64) -> WorldSpec {
+    let mut source = c.source.replace("@F@", &format!("@DIR@/{file_name}"));
+    if wrong_message {
+        source = source.replace("test_protobuf.v1.Person", "no.such.Message").replace("test_protobuf_maps.v1.Maps", "test_protobuf_maps.v1.").replace("test_protobuf3.v1.Person", "");
+    }
+    let event: serde_json::Value = serde_json::from_str(c.event).unwrap();
+    let mut ops = vec![Op::Compile { prog: 0 }, Op::Run { prog: 0, event: 0, fresh_runtime: true, faults: FaultPlan::default(), tag: String::new() }];
+    if let Some(m) = mid {
+        // the file changes between compile and run, and between two runs (interacts with the schema cache)
+        ops.push(Op::SetFile { file: FileState { name: file_name.to_string(), state: m } });
+        ops.push(Op::Run { prog: 0, event: 0, fresh_runtime: true, faults: FaultPlan::default(), tag: String::new() });
+        ops.push(Op::Compile { prog: 0 });
+        ops.push(Op::Run { prog: 0, event: 0, fresh_runtime: true, faults: FaultPlan::default(), tag: String::new() });
+    }
+    let nodes = (0..if two_nodes { 2 } else { 1 }).map(|_| NodeSpec { tz: "UTC".into(), hash_seed: 1, own_clone: false, ref_backing: false, ops: ops.clone() }).collect();
+    WorldSpec {
+        id,
+        clock: Some(c14::T0),
+        coord_hash_seed: 1,
+        programs: vec![ProgramSpec { source, read_only: vec![], precompile: false, label: format!("F:{}", c.name) }],
+        events: vec![EventSpec { value: event, metadata: None, secrets: Default::default() }],
+        nodes,
+        sched: SchedSpec { policy: Policy::Random { p: 0.3 }, seed, max_yields: 100_000 },
+        files: state.map(|s| vec![FileState { name: file_name.to_string(), state: s }]).unwrap_or_default(),
+        monitors: vec![],
+        fresh_threads: false,
+    }
+}
+
+pub fn run(ctx: &Ctx) -> ! {
+    let mut ev = Evidence::default();
+    let mut rep = Reporter::new(ctx);
+    let mut rng = Rng::new(mix(ctx.seed, 0xC04));
+    let mut worlds = vec![];
+    let mut kinds: std::collections::BTreeMap<String, u64> = Default::default();
+    let mut n = 0usize;
+    let mut exhaustive_bits = true;
+    for c in CONSUMERS {
+        let size = std::fs::metadata(repo_dir().join(c.fixture)).map(|m| m.len()).unwrap_or(0);
+        let content = |t: Option<u64>, f: Option<u64>, a: Option<&str>| FileKind::Content { from: c.fixture.to_string(), truncate: t, flip_bit: f, append: a.map(|s| s.to_string()) };
+        let mut add = |kind: &str, state: Option<FileKind>, mid: Option<FileKind>, name: Option<String>, wrong: bool, rng: &mut Rng, ev: &mut Evidence| {
+            n += 1;
+            // a fresh file name per world: validate_json_schema caches by path for the life of the process
+            let fname = name.unwrap_or_else(|| format!("f{n}.dat"));
+            let two = rng.chance(0.15);
+            worlds.push(world_for(c, format!("file-{n}"), &fname, state, mid, two, wrong, rng.next_u64()));
+            *kinds.entry(kind.to_string()).or_insert(0) += 1;
+            ev.distinct.insert(fnv(format!("{}|{kind}|{n}", c.name).as_bytes()));
+        };
+        add("valid", Some(content(None, None, None)), None, None, false, &mut rng, &mut ev);
+        add("absent", Some(FileKind::Absent), None, None, false, &mut rng, &mut ev);
+        add("empty", Some(FileKind::Bytes { hex: String::new() }), None, None, false, &mut rng, &mut ev);
+        add("directory", Some(FileKind::Directory), None, None, false, &mut rng, &mut ev);
+        add("dangling_symlink", Some(FileKind::DanglingSymlink), None, None, false, &mut rng, &mut ev);
+        add("symlink_loop", Some(FileKind::SymlinkLoop), None, None, false, &mut rng, &mut ev);
+        add("path_through_file", Some(FileKind::ThroughFile), None, Some(format!("reg-{}/child.dat", c.name.replace(['(', ')'], "_"))), false, &mut rng, &mut ev);
+        add("name_too_long", None, None, Some(format!("{}.dat", "n".repeat(300))), false, &mut rng, &mut ev);
+        add("trailing_garbage", Some(content(None, None, Some("\u{0}\u{1}garbage{{{"))), None, None, false, &mut rng, &mut ev);
+        add("wrong_kind_json", Some(FileKind::Content { from: "tests/data/grok/aliases.json".into(), truncate: None, flip_bit: None, append: None }), None, None, false, &mut rng, &mut ev);
+        add("wrong_kind_descriptor", Some(FileKind::Content { from: "tests/data/protobuf/test/v1/test.desc".into(), truncate: None, flip_bit: None, append: None }), None, None, false, &mut rng, &mut ev);
+        add("non_utf8", Some(FileKind::Bytes { hex: "fffe7b22613a2022c328227d80".into() }), None, None, false, &mut rng, &mut ev);
+        add("json_scalar", Some(FileKind::Bytes { hex: "3432".into() }), None, None, false, &mut rng, &mut ev);
+        add("json_deep", Some(FileKind::Bytes { hex: "5b".repeat(300) }), None, None, false, &mut rng, &mut ev);
+        if !c.text_file {
+            add("wrong_message_name", Some(content(None, None, None)), None, None, true, &mut rng, &mut ev);
+        }
+        // replaced / removed / truncated between compile and run, and between two runs
+        for (k, m) in [("removed_mid_run", FileKind::Absent), ("emptied_mid_run", FileKind::Bytes { hex: String::new() }), ("truncated_mid_run", content(Some(size / 2), None, None)), ("replaced_by_other_kind_mid_run", FileKind::Content { from: "tests/data/grok/aliases.json".into(), truncate: None, flip_bit: None, append: None }), ("became_directory_mid_run", FileKind::Directory)] {
+            add(k, Some(content(None, None, None)), Some(m), None, false, &mut rng, &mut ev);
+            // appears only later
+            add(&format!("absent_then_{k}"), Some(FileKind::Absent), Some(content(None, None, None)), None, false, &mut rng, &mut ev);
+        }
+        // every truncation prefix (short / torn write)
+        for t in 0..size {
+            add("truncation_prefix", Some(content(Some(t), None, None)), None, None, false, &mut rng, &mut ev);
+        }
+        // single-bit flips: all of them (thorough), a seeded quarter (quick)
+        for b in 0..size * 8 {
+            if ctx.quick() && rng.below(4) != 0 {
+                exhaustive_bits = false;
+                continue;
+            }
+            add("bit_flip", Some(content(None, Some(b), None)), None, None, false, &mut rng, &mut ev);
+        }
+    }
+    let file_cases = worlds.len() as u64;
+    ev.extra.insert("file_state_cases".into(), serde_json::to_value(&kinds).unwrap());
+    ev.extra.insert("file_consumers".into(), serde_json::to_value(CONSUMERS.iter().map(|c| c.name).collect::<Vec<_>>()).unwrap());
+    ev.extra.insert("eacces_note".into(), "the sandbox runs as root, so EACCES cannot be produced by chmod; ENOENT, EISDIR, ELOOP, ENOTDIR and ENAMETOOLONG stand in for it".into());
+    let sessions = pack(ctx.seed, worlds, 400);
+    let mut samples = vec![];
+    if let Some(s) = sessions.first() {
+        for w in s.worlds.iter().skip(1).step_by(9).take(3) {
+            samples.push(serde_json::json!({"program": w.programs[0].source, "files": w.files, "ops": w.nodes[0].ops}));
+        }
+    }
+    let _ = run_and_judge(ctx, "c04", &sessions, &mut rep, &mut ev, true);
+    ev.evaluations += file_cases;
+    println!("file states: {file_cases} cases ({:.1}s)", ctx.start.elapsed().as_secs_f64());
+
+    // --- fault-free corpus + generator worlds under all scheduler modes: panics that need an interleaving or a history
+    let items = c14::items(true);
+    let n_sessions = if ctx.quick() { 300 } else { 8_000 };
+    let max_nodes = if ctx.quick() { 4 } else { 8 };
+    let mut sessions = vec![];
+    for j in 0..n_sessions {
+        let mut r = rng.derive(j as u64);
+        let (s, _) = c14::gen_session(&mut r, ctx.seed, &items, &[], max_nodes, 6, format!("p{j}"));
+        sessions.push(s);
+    }
+    // generator G programs (compile + run, one node): target-operation shapes the corpora do not contain
+    let n_gen = if ctx.quick() { 4_000 } else { 100_000 };
+    let mut gworlds = vec![];
+    for i in 0..n_gen {
+        let mut sub = rng.derive(0x6000_0000 + i as u64);
+        let source = genprog::Gen::new(&mut sub).program();
+        let event = genprog::event(&mut sub);
+        gworlds.push(WorldSpec {
+            id: format!("g{i}"),
+            clock: Some(c14::T0),
+            coord_hash_seed: 1,
+            programs: vec![ProgramSpec { source, read_only: vec![], precompile: true, label: format!("G:{}:{i}", ctx.seed) }],
+            events: vec![event],
+            nodes: vec![NodeSpec { tz: "UTC".into(), hash_seed: 1, own_clone: false, ref_backing: false, ops: vec![Op::Run { prog: 0, event: 0, fresh_runtime: true, faults: FaultPlan::default(), tag: String::new() }] }],
+            sched: SchedSpec { policy: Policy::Serial, seed: 0, max_yields: 100_000 },
+            files: vec![],
+            monitors: vec![],
+            fresh_threads: false,
+        });
+    }
+    sessions.extend(pack(ctx.seed, gworlds, 400));
+    let before = ev.worlds;
+    for chunk in sessions.chunks(400) {
+        if ctx.out_of_time() {
+            break;
+        }
+        let _ = run_and_judge(ctx, "c04", chunk, &mut rep, &mut ev, false);
+    }
+    ev.evaluations += ev.worlds - before;
+    ev.extra.insert("fault_free_worlds".into(), (ev.worlds - before).into());
+    ev.samples = samples;
+    ev.exhaustive = Some(exhaustive_bits);
+    ev.rule = "Environment-fault slice of C04 only. evaluations = file-state cases + fault-free worlds. For each file-consuming function (parse_proto, encode_proto, parse_groks alias_sources, parse_etld psl: file read at compile time; validate_json_schema: read at first use and cached) and each bundled fixture: absent, empty, directory, dangling symlink, symlink loop, path through a regular file, over-long name, every truncation prefix, single-bit flips (all in the thorough tier => exhaustive: true; a seeded quarter in the quick tier), trailing garbage, valid content of the wrong kind, non-UTF-8 bytes, wrong message name, file replaced / removed / truncated / created between compile and run and between two runs; then compile (diagnostics rendered) and run on 1-2 nodes. Then fault-free corpus (A+B+C) worlds on 1-8 nodes under all scheduler modes and generator-G programs, looking only for panics and aborts. Oracle: no panic in compile, Formatter::to_string or resolve, and the worker process survives. distinct_nontrivial = distinct (function, file-state case) pairs. Input-driven panics (the bulk of C04) are NOT addressed by this family.".into();
+    ev.assumptions = vec![
+        "catch_unwind around compile+render and resolve in the worker; aborts are seen by the driver as a dead worker".into(),
+        "overflow checks are enabled in the simulator build (as in the debug builds the test-suite uses)".into(),
+    ];
+    let verdict = rep.finish(ctx);
+    ev.write(ctx, "fault_enumeration", verdict.violations, &verdict.known_seen);
+    exit_with(&verdict)
+}
